@@ -24,8 +24,14 @@ def _jsonable(x):
         return {str(k): _jsonable(v) for k, v in x.items()}
     if isinstance(x, (list, tuple, set, frozenset)):
         return [_jsonable(v) for v in x]
-    if isinstance(x, (int, float, str, bool)) or x is None:
+    if isinstance(x, bool) or x is None:
         return x
+    if isinstance(x, int):
+        return int(x)  # cstruct integer types are int subclasses that do not pickle
+    if isinstance(x, float):
+        return float(x)
+    if isinstance(x, str):
+        return str(x)
     return repr(x)
 
 
